@@ -392,17 +392,25 @@ def rerun_cases(ctx, inputs, tag="shrink"):
 
 
 def shrink(ctx, case, want_code, budget=40, want_tag=None):
+    """greedy deletion of list elements; bounded in steps and in wall time (VERIF_SHRINK_S, default 300 s per violation:
+    a harness whose cases take seconds each - real raft / libp2p rigs - must not turn a detection into an hour of re-runs)"""
     cur = case["input"]
     best_side = case
     steps = 0
     improved = True
-    while improved and steps < budget:
+    t0 = time.time()
+    limit = float(os.environ.get("VERIF_SHRINK_S", ctx.g.get("shrink_s", 300)))
+    batch = 24
+    while improved and steps < budget and time.time() - t0 < limit:
         improved = False
-        cands = list(shrink_candidates(cur))[:24]
+        cands = list(shrink_candidates(cur))[:batch]
         if not cands:
             break
         steps += 1
+        t1 = time.time()
         res, o = rerun_cases(ctx, cands)
+        if time.time() - t1 > limit / 4 and batch > 4:
+            batch = max(4, batch // 3)
         if res is None:
             break
         for (inp, fails, side) in res:
